@@ -567,7 +567,9 @@ def compile_family(tier):
     cheap = [A, ("and", [A, B]), ("or", [A, B]), ("orw", [(9, A), (1, B)]), ("and", [A, A9]), ("thresh", 2, [A, B, C]),
              ("thresh", 2, [A, B, O5]), ("thresh", 2, [A, B, H]), ("thresh", 1, [A, B]), ("and", [A, ("or", [B, O5])]),
              # two different locks of one kind in one policy: the policy cache must tell them apart
-             ("and", [("and", [A, O5]), O9]), ("and", [("and", [A, O5]), H]), ("and", [("or", [A, B]), ("or", [C, D])])]
+             ("and", [("and", [A, O5]), O9]), ("and", [("and", [A, O5]), H]), ("and", [("or", [A, B]), ("or", [C, D])]),
+             # constants: a trivially true alternative must not make a path signature-free, a false one must not add or hide one
+             ("and", [A, ("or", [B, ("T",)])]), ("or", [A, ("T",)])]
     tap_too = [("and", [A, B]), ("thresh", 2, [A, B, C]), ("thresh", 2, [A, B, O5]), ("and", [("and", [A, O5]), O9])]
     quick = [(p, "segwitv0") for p in cheap + mixed] + [(p, "tap") for p in tap_too + mixed]
     if tier == "quick":
@@ -577,7 +579,8 @@ def compile_family(tier):
             ("or", [("and", [A, B]), ("and", [C, O5])]), ("or", [("and", [A, O5]), ("and", [B, O9])]),
             ("or", [("and", [A, O5]), ("and", [B, OT])]), ("or", [A, ("or", [B, ("and", [C, O5])])]),
             ("and", [A, ("thresh", 2, [B, C, O5])]), ("orw", [(99, A), (1, ("and", [B, A9]))]),
-            ("thresh", 2, [A, ("and", [B, O5]), C])]
+            ("thresh", 2, [A, ("and", [B, O5]), C]), ("and", [A, ("T",)]), ("or", [A, ("F",)]), ("thresh", 1, [A, ("T",)]),
+            ("thresh", 2, [A, B, ("F",)])]
     out = list(quick)
     for p in cheap + dear:
         for ctx in ("segwitv0", "tap"):
